@@ -195,6 +195,12 @@ func payloadChunks(codec string, enc []byte) ([][]byte, error) {
 		body := in[:n]
 		in = in[n:]
 		switch typ {
+		case 0xff: // stream identifier
+		default:
+			// the encoders write identifier, compressed and uncompressed chunks only (padding 0xfe
+			// needs s2.WriterPadding, which snappy.NewBufferedWriter does not set); the decoder
+			// rejects 0xfe, so an encoder that pads would make cached postings undecodable
+			return nil, fmt.Errorf("unexpected chunk type 0x%02x in the encoder's output", typ)
 		case 0x00:
 			raw, err := s2.Decode(nil, body[4:])
 			if err != nil {
@@ -344,7 +350,8 @@ func execC12(c *hlib.Ctx, tok []string) string {
 		}
 		chunks, err := payloadChunks(codec, enc)
 		if err != nil {
-			return "bad-op"
+			c.Violation("encoder-output-not-decodable-frames", codec+": "+err.Error())
+			return "bad-frames"
 		}
 		var lens []string
 		var payload []byte
